@@ -1,7 +1,140 @@
 import GoawkModel.Basic
-/-! Line-protocol handler for property C10: one request line (already split into words, without the leading `c10`) → one answer line. -/
-namespace GoawkModel.Drv.C10
+import GoawkModel.C10
+/-!
+Line-protocol handler for property C10. Bytes travel as hex (`-` = empty), numbers as `nan | pinf | ninf | <mant>p<exp>`
+(the exact value mant·2^exp of a float64), results as `num/den`, match lists as `a:b` words.
 
-def handle (_args : List String) : String := "unimplemented"
+  int <num>                          → <numout>
+  f2i <num>                          → <int>
+  substr <chars> <s> <num>           → ok <hex> | panic
+  substr3 <chars> <s> <num> <num>    → ok <hex> | panic
+  length <chars> <s>                 → <int>
+  runes <s>                          → <hex>*
+  index <chars> <s> <t>              → <int>
+  match <chars> <s> none|<a:b>       → <RSTART> <RLENGTH> ok <hex>|panic     (substr(s, RSTART, RLENGTH) in the same mode)
+  sub <global> <s> <repl> <a:b>*     → <count> <hex>
+  expand <match> <repl>              → <hex>
+  split <s> <sep>                    → <n> <hex>*
+  rsplit <s> <a:b>*                  → <n> <hex>*
+  laws <s> <a:b>*                    → wf=<0|1> aligned=<0|1>
+-/
+namespace GoawkModel.Drv.C10
+open GoawkModel GoawkModel.C10
+
+def pow2 (n : Nat) : Int := (2 : Int) ^ n
+
+def parseNum (w : String) : Option Num :=
+  match w with
+  | "nan" => some .nan
+  | "pinf" => some .pinf
+  | "ninf" => some .ninf
+  | _ =>
+    match w.splitOn "p" with
+    | [m, e] =>
+      match m.toInt?, e.toInt? with
+      | some m, some e =>
+        if e ≥ 0 then some (.fin ((m * pow2 e.toNat : Int) : Rat)) else some (.fin (mkRat m (pow2 (-e).toNat).toNat))
+      | _, _ => none
+    | _ => none
+
+def showNum : Num → String
+  | .nan => "nan"
+  | .pinf => "pinf"
+  | .ninf => "ninf"
+  | .fin q => toString q.num ++ "/" ++ toString q.den
+
+def parseBool (w : String) : Option Bool :=
+  match w with
+  | "0" => some false
+  | "1" => some true
+  | _ => none
+
+def parsePair (w : String) : Option (Nat × Nat) :=
+  match w.splitOn ":" with
+  | [a, b] => match a.toNat?, b.toNat? with
+    | some a, some b => some (a, b)
+    | _, _ => none
+  | _ => none
+
+def showOpt : Option Bytes → String
+  | some b => "ok " ++ toHex b
+  | none => "panic"
+
+def showList (l : List Bytes) : String :=
+  String.intercalate " " (toString l.length :: l.map toHex)
+
+/-- every match boundary is a boundary of Go's rune decomposition of `s` -/
+def boundaries (s : Bytes) : List Nat :=
+  (runes s).foldl (fun acc r => (acc.head! + r.length) :: acc) [0]
+
+def aligned (s : Bytes) (ms : List (Nat × Nat)) : Bool :=
+  let bs := boundaries s
+  ms.all fun (a, b) => bs.contains a && bs.contains b
+
+def handle (args : List String) : String :=
+  match args with
+  | ["int", x] =>
+    match parseNum x with
+    | some x => showNum (awkInt x)
+    | none => "bad-request"
+  | ["f2i", x] =>
+    match parseNum x with
+    | some x => toString (floatToInt x)
+    | none => "bad-request"
+  | ["substr", c, s, m] =>
+    match parseBool c, fromHex s, parseNum m with
+    | some c, some s, some m => showOpt (awkSubstr c s m)
+    | _, _, _ => "bad-request"
+  | ["substr3", c, s, m, n] =>
+    match parseBool c, fromHex s, parseNum m, parseNum n with
+    | some c, some s, some m, some n => showOpt (awkSubstrLen c s m n)
+    | _, _, _, _ => "bad-request"
+  | ["length", c, s] =>
+    match parseBool c, fromHex s with
+    | some c, some s => toString (awkLength c s)
+    | _, _ => "bad-request"
+  | ["runes", s] =>
+    match fromHex s with
+    | some s => String.intercalate " " ((runes s).map toHex)
+    | _ => "bad-request"
+  | ["index", c, s, t] =>
+    match parseBool c, fromHex s, fromHex t with
+    | some c, some s, some t => toString (awkIndex c s t)
+    | _, _, _ => "bad-request"
+  | ["match", c, s, loc] =>
+    match parseBool c, fromHex s with
+    | some c, some s =>
+      let l : Option (Option (Nat × Nat)) := if loc = "none" then some none else (parsePair loc).map some
+      match l with
+      | some l =>
+        let r := awkMatch c s l
+        toString r.1 ++ " " ++ toString r.2 ++ " " ++ showOpt (awkSubstrLen c s (ofInt r.1) (ofInt r.2))
+      | none => "bad-request"
+    | _, _ => "bad-request"
+  | "sub" :: g :: s :: repl :: ms =>
+    match parseBool g, fromHex s, fromHex repl, ms.mapM parsePair with
+    | some g, some s, some repl, some ms =>
+      let r := awkSub s repl g ms
+      toString r.2 ++ " " ++ toHex r.1
+    | _, _, _, _ => "bad-request"
+  | ["expand", m, repl] =>
+    match fromHex m, fromHex repl with
+    | some m, some repl => toHex (expand m repl)
+    | _, _ => "bad-request"
+  | ["split", s, sep] =>
+    match fromHex s, fromHex sep with
+    | some s, some sep =>
+      if sep = [32] ∨ (runes sep).length > 1 then "unsupported" else showList (awkSplitLit s sep)
+    | _, _ => "bad-request"
+  | "rsplit" :: s :: ms =>
+    match fromHex s, ms.mapM parsePair with
+    | some s, some ms => showList (awkSplitRegex s ms)
+    | _, _ => "bad-request"
+  | "laws" :: s :: ms =>
+    match fromHex s, ms.mapM parsePair with
+    | some s, some ms =>
+      "wf=" ++ (if matchesWF s 0 ms then "1" else "0") ++ " aligned=" ++ (if aligned s ms then "1" else "0")
+    | _, _ => "bad-request"
+  | _ => "bad-request"
 
 end GoawkModel.Drv.C10
